@@ -60,7 +60,11 @@ def gen_tables(rng, tier, seed):
         elif r < 0.87:
             ops.append(['open_skew', link, rng.randrange(2), 'classic' if classic else 'le_coc'])
         elif r < 0.90 and classic:
-            ops.append(['mismatch', link, rng.randrange(2)])
+            # (sometimes with a valid open issued right behind it, while the refused one is still being torn down)
+            ops.append(['mismatch', link, rng.randrange(2), rng.random() < 0.5])
+        elif r < 0.905 and not classic and cuts == 0:
+            # a long life on one LE link: the next channel is always opened before the previous one is closed
+            ops.append(['churn', link, rng.randrange(2), rng.choice([66, 70, 130])])
         elif r < 0.96 and cuts < 2:
             cuts += 1
             what = rng.choice(['open', 'close', 'data', 'idle'])
@@ -458,10 +462,33 @@ def run_tables(case):
                     cx.shape.append(('open2', k1))
             elif kind == 'mismatch':
                 # Basic-mode open towards the ERTM-only server: it fails during configuration, and leaves nothing behind on either side
-                _, link, side = op
+                _, link, side = op[:3]
+                retry = len(op) > 3 and op[3]
                 if cx.links[link] is not None and cx.classic(link):
                     conn = cx.links[link][side]
-                    st, t = sim.run(conn.create_l2cap_channel(spec=cx.l2cap.ClassicChannelSpec(psm=CL_PSM_ERTM, mtu=512)), 60.0)
+                    peer_node = cx.node(link, 1 - side)
+                    before_acc = len(cx.accepted[peer_node])
+                    tm = sim.loop.create_task(conn.create_l2cap_channel(spec=cx.l2cap.ClassicChannelSpec(psm=CL_PSM_ERTM, mtu=512)))
+                    tr = None
+                    if retry and CL_PSMS[0] in cx.servers[peer_node]:
+                        # as soon as the refused attempt has given its CID back, a valid open takes it - while the peer's answer to
+                        # the first one may still be on its way
+                        sim.loop.drive(tm.done, 60.0)
+                        tr = sim.loop.create_task(_open_coro(cx, link, side, 'classic', CL_PSMS[0], 1))
+                        sim.probe('open_right_behind_a_refused_one')
+                    st = sim.loop.drive(lambda: tm.done() and (tr is None or tr.done()), 60.0)
+                    t = tm
+                    if tr is not None:
+                        if not tr.done():
+                            sim.violation_once('open-hang', 'open-hang:classic:right-behind-a-mode-mismatch', describe_task(tr))
+                            tr.cancel()
+                            ok = False
+                        elif tr.cancelled() or tr.exception() is not None:
+                            sim.violation_once('open-refused', f'open-refused:classic:right-behind-a-mode-mismatch:{"cancelled" if tr.cancelled() else type(tr.exception()).__name__}', 'open with a listening server failed')
+                            ok = False
+                        else:
+                            sim.loop.settle()
+                            ok = _register(cx, link, side, 'classic', tr.result(), before_acc)
                     sim.probe('mode_mismatch_during_configuration')
                     if st != 'done':
                         sim.violation_once('open-hang', f'mismatch-open-hang:{st}', describe_task(t))
@@ -473,6 +500,18 @@ def run_tables(case):
                     sim.loop.settle()
                     sim.loop.advance(0.5)
                     cx.shape.append(('mismatch',))
+            elif kind == 'churn':
+                _, link, side, count = op
+                if cx.links[link] is not None and not cx.classic(link) and LE_PSMS[0] in cx.servers[cx.node(link, 1 - side)]:
+                    sim.probe('long_overlapping_open_close_history')
+                    ok = _do_open(cx, link, side, 'le_coc', 0, 1, tag='churn-open')
+                    for _k in range(count):
+                        if not ok:
+                            break
+                        prev = cx.chans[-1]
+                        ok = _do_open(cx, link, side, 'le_coc', 0, 1, tag='churn-open')
+                        if ok:
+                            ok = _do_close(cx, cx.chans.index(prev), side)
             elif kind == 'open_skew':
                 # a refused and a valid open issued at once by the same side: the refused attempt holds the first free CID for a
                 # while, so the valid channel ends up with DIFFERENT CIDs on the two devices
